@@ -93,8 +93,11 @@ Mirrors(r, w) == /\ w.sid = r.sid /\ w.ty = r.ty /\ w.maj = r.maj /\ w.min = r.m
                  /\ w.seq = r.seq + 1 /\ w.seq \in 1..255
 
 \* ---- accounting (C12) ------------------------------------------------------
+\* contradictory flags (RFC 8907 section 7.2: start together with stop, stop together with watchdog)
+AcctContradictory(f) == (HasBit(f, 2) /\ HasBit(f, 4)) \/ (HasBit(f, 4) /\ HasBit(f, 8))
 AcctMustError(scope, b) ==
    \/ ~Dec("AcctRequest", b).ok
+   \/ AcctContradictory(Dec("AcctRequest", b).v.flags)
    \/ ~Valid("AcctRequest", Dec("AcctRequest", b).v)
    \/ ~HasUser(cfg, scope, Dec("AcctRequest", b).v.user)
    \/ ~EffAcct(TheUser(cfg, scope, Dec("AcctRequest", b).v.user))
